@@ -493,25 +493,115 @@ Fixpoint sequence {A} (l : list (option A)) : option (list A) :=
   | None :: _ => None
   end.
 
+(* ---- post names (post.rs PostWork::exec) --------------------------------------------- *)
+(* A name is its UTF-8 bytes.  With production names (static_metadata.postscript_names = Some map):
+   rename through the map, strip every character outside [A-Za-z0-9._] (all bytes of a non-ASCII
+   character go), make duplicates unique with a ".N" suffix, THEN check that every final name fits
+   a Pascal string.  The suffix makes names longer, so the check is on the final names. *)
+Definition name := list N.
+
+Definition keep_char (c : N) : bool :=
+  ((48 <=? c) && (c <=? 57)) || ((65 <=? c) && (c <=? 90)) || ((97 <=? c) && (c <=? 122))
+  || (c =? 46) || (c =? 95).
+
+(* HashMap<String, usize> `seen`: newest entry first *)
+Fixpoint seen_get (seen : list (name * N)) (k : name) : option N :=
+  match seen with
+  | [] => None
+  | (k', v) :: t => if words_eqb k' k then Some v else seen_get t k
+  end.
+
+(* format!("{n}") *)
+Fixpoint dec_digits (fuel : nat) (n : N) : name :=
+  match fuel with
+  | O => []
+  | S f => if n <? 10 then [48 + n] else dec_digits f (n / 10) ++ [48 + n mod 10]
+  end.
+Definition dec (n : N) : name := dec_digits (S (N.to_nat (N.log2 n))) n.
+
+Definition suffixed (nm : name) (n : N) : name := nm ++ [46] ++ dec n.
+
+(* while seen.contains_key(&format!("{name}.{n}")) { n += 1 }: at most |seen| keys are taken *)
+Fixpoint free_suffix (fuel : nat) (seen : list (name * N)) (nm : name) (n : N) : N :=
+  match fuel with
+  | O => n
+  | S f => match seen_get seen (suffixed nm n) with
+           | Some _ => free_suffix f seen nm (n + 1)
+           | None => n
+           end
+  end.
+
+Definition post_step (st : list (name * N) * list name) (raw : name) : list (name * N) * list name :=
+  let nm := filter keep_char raw in
+  match seen_get (fst st) nm with
+  | Some n =>
+      let n' := free_suffix (S (length (fst st))) (fst st) nm n in
+      let nm1 := suffixed nm n' in
+      ((nm1, 1) :: (nm, n' + 1) :: fst st, snd st ++ [nm1])
+  | None => ((nm, 1) :: fst st, snd st ++ [nm])
+  end.
+
+Definition production_names (raws : list name) : list name := snd (fold_left post_step raws ([], [])).
+
+Fixpoint lookup_rename (m : list (N * name)) (g : N) : option name :=
+  match m with
+  | [] => None
+  | (k, v) :: t => if k =? g then Some v else lookup_rename t g
+  end.
+
+(* the names post would hold, before the length check *)
+Definition final_names (order : list N) (nm : N -> name) (rename : option (list (N * name))) : list name :=
+  match rename with
+  | Some m => production_names (map (fun g => match lookup_rename m g with Some r => r | None => nm g end) order)
+  | None => map nm order
+  end.
+
+Definition name_fits (n : name) : bool := N.of_nat (length n) <=? 255.
+
+(* check_name_lengths on the final names: Error::OutOfBounds = None *)
+Definition post_names (order : list N) (nm : N -> name) (rename : option (list (N * name))) : option (list name) :=
+  let finals := final_names order nm rename in
+  if forallb name_fits finals then Some finals else None.
+
 Record be_tables := mkBE {
   be_glyf : list glyph;      (* GlyfLocaBuilder: one glyph per name; loca has one more entry *)
   be_hmtx : list N;          (* one advance per name *)
-  be_post : list N;          (* one name per name *)
+  be_post : list name;       (* one (final) name per name *)
   be_gvar : list N;          (* one GlyphVariations per name (make_variations) *)
   be_hvar : list N }.        (* one delta set per name (AdvanceDeltas) *)
 
-(* `len n` is the byte length of the name glyph n gets in post (after production renaming).
-   post.rs check_name_lengths: a version 2 post table stores Pascal strings, so a name longer than
-   255 bytes is Error::OutOfBounds (before the repair recorded in known_findings.txt it was written
-   with a wrapped length byte; the harness keeps a 300-byte name, key post-string-data-malformed) *)
-Definition be_build (order : list N) (src : N -> src_glyph) (adv : N -> N) (var hv : N -> N) (len : N -> N)
+(* `nm g` is the source name of glyph g, `rename` is public.postscriptNames when production names
+   are in effect *)
+Definition be_build (order : list N) (src : N -> src_glyph) (adv : N -> N) (var hv : N -> N)
+                    (nm : N -> name) (rename : option (list (N * name)))
   : option be_tables :=
-  if forallb (fun n => len n <=? 255) order then
-    match sequence (map (fun n => compile_glyph order (src n)) order) with
-    | Some gl => Some (mkBE gl (map adv order) order (map var order) (map hv order))
-    | None => None
-    end
-  else None.
+  match post_names order nm rename with
+  | None => None
+  | Some finals =>
+      match sequence (map (fun n => compile_glyph order (src n)) order) with
+      | Some gl => Some (mkBE gl (map adv order) finals (map var order) (map hv order))
+      | None => None
+      end
+  end.
+
+(* for the correspondence run: glyph ids 0..n-1 with the given source names; `impl` is what the
+   compiler did: None = build error from the length check, Some = the names read back from post *)
+Fixpoint names_eqb (a b : list name) : bool :=
+  match a, b with
+  | [], [] => true
+  | x :: a', y :: b' => words_eqb x y && names_eqb a' b'
+  | _, _ => false
+  end.
+
+Fixpoint count_up (n : nat) (i : N) : list N :=
+  match n with O => [] | S n' => i :: count_up n' (i + 1) end.
+
+Definition post_agree (names : list name) (rename : option (list (N * name))) (impl : option (list name)) : bool :=
+  match post_names (count_up (length names) 0) (fun g => nth (N.to_nat g) names []) rename, impl with
+  | None, None => true
+  | Some a, Some b => names_eqb a b
+  | _, _ => false
+  end.
 
 (* ---- FontWork::exec and bytes_for -------------------------------------------------- *)
 (* One slot per entry of TABLES_TO_MERGE: has() and what to_bytes returned
